@@ -256,7 +256,8 @@ def worlds(tier):
 
 def run_item(item):
     from aiuti import asyncio as aiu
-    w, pb, shard, nsh = item
+    w, pb, shard, nsh, fb = item
+    FB[0] = fb
     tx.install_monitoring(common.SRC)
     tx.save_asyncio_seams(aiu)
     st = Stats()
@@ -290,7 +291,7 @@ def run_item(item):
     finally:
         tx.restore_asyncio_seams(aiu)
     if shard == 0:
-        st.sample({'world': w, 'preemption_bound': pb, 'root_choice_points': len(root.choices)})
+        st.sample({'world': w, 'preemption_bound': pb, 'free_switch_bound': fb, 'root_choice_points': len(root.choices)})
     return st
 
 
@@ -310,7 +311,7 @@ def main(tier):
         rule=('worlds: target loop idle / running via loop_in_thread / own / closed; 1..3 caller threads with '
               'ensure_aw or run_aw_threadsafe; coroutine / Future / Task awaitables returning, raising, sleeping '
               '{0, D} on the target; loop_in_thread racing ensure_aw on a fresh loop; owner stopping early; all '
-              'schedules with <= PB preemptions and <= FB non-default choices at blocking points (FB=1 quick, 2 thorough); oracle: identical result/exception object, evaluated on the '
+              'schedules with <= PB preemptions and <= FB non-default choices at blocking points ((PB,FB) = (1,1) quick; thorough (2,1) and (1,2)); oracle: identical result/exception object, evaluated on the '
               'target loop, at most one runner per loop, loop_in_thread/stop post-conditions, every caller '
               'completes (deadlock detector)'),
         assumptions=['one aiuti source line / stdlib call is atomic', 'virtual clock',
